@@ -50,10 +50,13 @@ type Proxy struct {
 	CtxMap   func(map[string]int, interface{}, *int) (int, error)
 	Div      func(int, int) (int, error)
 	Positive func(int) error
+	Index    func([]int, int) (int, error)
+	Quot     func(int, int) (int, error)
+	Deref    func(*int) (int, error)
 }
 
 var proxyField = map[string]string{"noArgs": "NoArgs", "hello": "Hello", "add": "Add", "Scalars": "Scalars", "structs": "Structs", "ptrs": "Ptrs", "slices": "Slices", "maps": "Maps",
-	"echo": "Echo", "join": "Join", "sum": "Sum", "any": "Any", "withCtx": "WithCtx", "special": "Special", "multi": "Multi", "repeat": "Repeat", "tree": "Tree", "nothing": "Nothing", "onlyErr": "OnlyErr", "ctxAny": "CtxAny", "ctxVar": "CtxVar", "ctxMap": "CtxMap", "div": "Div", "positive": "Positive"}
+	"echo": "Echo", "join": "Join", "sum": "Sum", "any": "Any", "withCtx": "WithCtx", "special": "Special", "multi": "Multi", "repeat": "Repeat", "tree": "Tree", "nothing": "Nothing", "onlyErr": "OnlyErr", "ctxAny": "CtxAny", "ctxVar": "CtxVar", "ctxMap": "CtxMap", "div": "Div", "positive": "Positive", "index": "Index", "quot": "Quot", "deref": "Deref"}
 
 var ctxType = reflect.TypeOf((*context.Context)(nil)).Elem()
 
@@ -406,7 +409,7 @@ func checkWith(c callCase, remote func() remoteResult) string {
 	}
 	switch {
 	case lpanic != nil:
-		if remoteErr == nil || !strings.Contains(remoteErr.Error(), fmt.Sprint(lpanic)) {
+		if remoteErr == nil || remoteErr.Error() != fmt.Sprint(lpanic) {
 			return fmt.Sprintf("the function panicked with %q; the caller got results %v error %v", lpanic, r.vals, remoteErr)
 		}
 	case lerr != nil:
